@@ -104,8 +104,9 @@ fn merge(t: &[String], as_set: bool) -> String {
         Ok(ids)
     });
     match res {
-        Ok(mut ids) => {
-            if as_set { ids.sort(); }
+        Ok(ids) => {
+            // with a non-transitive comparator only the number of emitted rows is canonical
+            if as_set { return format!("N {}", ids.len()); }
             format!("R {}", ids.iter().map(|i| i.to_string()).collect::<Vec<_>>().join(","))
         }
         Err(_) => "ERR".into(),
